@@ -3,6 +3,7 @@
 -/
 import Petl.Proto
 import Petl.Sort
+import Petl.Join
 namespace Petl
 
 def opCmp : P String := do
@@ -55,12 +56,51 @@ def opIsSorted : P String := do
     | .error e => pure ("ERR " ++ e.code)
     | .ok idx => pure (showBool (isSortedBy idx rev strict rows))
 
+def pOptText : P (Option (List Nat)) := do
+  let t ← tok
+  if t == "-" then pure none else
+  if t.front == 'S' then
+    match parseCps (t.drop 1).toString with
+    | some l => pure (some l)
+    | none => P.fail s!"bad text {t}"
+  else P.fail s!"expected text or -, got {t}"
+
+def pJoinKind : P JoinKind := do
+  let t ← tok
+  match t with
+  | "inner" => pure .inner | "left" => pure .left | "right" => pure .right
+  | "outer" => pure .outer | "anti" => pure .anti | "lookup" => pure .lookup
+  | _ => P.fail s!"bad join kind {t}"
+
+/-- join <kind> <missing> <lprefix|-> <rprefix|-> <lkey> <rkey> <bs|-> <L> <R> -/
+def opJoin : P String := do
+  let kind ← pJoinKind
+  let missing ← pVal
+  let lp ← pOptText
+  let rp ← pOptText
+  let lkey ← pKey
+  let rkey ← pKey
+  let bs ← pOptNat
+  let l ← pTable
+  let r ← pTable
+  match lkey, rkey with
+  | some lk, some rk => pure (showOut (joinView kind missing lp rp lk rk bs l r))
+  | _, _ => P.fail "join needs explicit keys"
+
+/-- crossjoin <missing> <n> <table>… -/
+def opCrossJoin : P String := do
+  let missing ← pVal
+  let ts ← pList pTable
+  pure (showOut (crossJoinView missing ts))
+
 def dispatch (op : String) : Option (P String) :=
   match op with
   | "cmp" => some opCmp
   | "sort" => some opSort
   | "mergesort" => some opMergeSort
   | "issorted" => some opIsSorted
+  | "join" => some opJoin
+  | "crossjoin" => some opCrossJoin
   | _ => none
 
 end Petl
